@@ -847,6 +847,27 @@ def run(ctx):
             batch.append(([req], "witness: " + name, [cells], [got]))
     flush()
     stats["refutation_witnesses"] = wstats
+    # the two witness families are GENUINE layout dependences of the code, inside the property's text ("a sub-record given as
+    # f.a, f.b or as one cell of positional ... entries ... yield equal row models"; its why_tests_cant names the flip): they are
+    # evaluated as the property's oracle (spread layout vs packed layout of the SAME value) and reported as findings
+    for fam, t, key, a, b, what in [
+        ("positional", None, "positional-record-value-equals-field-name", [("m.a", "b"), ("m.b", "x")], [("m", "b|x")],
+         "record {a: 'b', b: 'x'}: spread layout m.a/m.b vs the positional cell `b|x` (read as the key;value pair b=x)"),
+        ("padded", "flow", "short-header-with-padded-type-cell", [("type", " send_message"), ("mainarg_message_text", "hi"), ("from", "start")],
+         [("type", " send_message"), ("message_text", "hi"), ("from", "start")],
+         "flow row whose type cell is ' send_message': long header mainarg_message_text parses, short header message_text raises KeyError "
+         "(the remap reads the raw, unstripped type cell)"),
+    ]:
+        rowlib.clear_cache()
+        if t == "flow":
+            wp = RowParser(FlowRowModel, CellParser())
+        else:
+            AB = _m("AB", [("a", rowlib.STR, ""), ("b", rowlib.STR, "")])
+            wp = RowParser(rowlib.py_type(_m("RAB", [("m", AB, {"a": "", "b": ""})])), CellParser())
+        ga, gb = impl_parse(wp, a), impl_parse(wp, b)
+        v.coverage["evaluations"] += 2
+        if ga[0] != gb[0] or (ga[0] == "ok" and not _deep_eq(ga[1], gb[1])):
+            v.failing_input(key, "two layouts of one value parse differently: " + what, dict(fn="witness", cells1=a, cells2=b, flow=(t == "flow")))
 
     # ------------------------------------------------ short/long header table, row type by row type
     if m:
@@ -907,6 +928,17 @@ def replay(rep):
     from rpft.parsers.creation.flowrowmodel import FlowRowModel
 
     r = rep["replay"]
+    if r["fn"] == "witness":
+        if r.get("flow"):
+            parser = RowParser(FlowRowModel, CellParser())
+        else:
+            AB = _m("AB", [("a", rowlib.STR, ""), ("b", rowlib.STR, "")])
+            parser = RowParser(rowlib.py_type(_m("RAB", [("m", AB, {"a": "", "b": ""})])), CellParser())
+        p1 = impl_parse(parser, [tuple(c) for c in r["cells1"]])
+        p2 = impl_parse(parser, [tuple(c) for c in r["cells2"]])
+        print("layout 1:", r["cells1"], "->", p1)
+        print("layout 2:", r["cells2"], "->", p2)
+        return p1[0] == p2[0] and (p1[0] != "ok" or _deep_eq(p1[1], p2[1]))
     if r["fn"] == "pair":
         t = _ty_from_json(r["ty"])
         parser = RowParser(rowlib.py_type(t), CellParser())
